@@ -107,6 +107,15 @@ func worldPlugins(w *World) {
 	if np > 0 {
 		keyRewrite = w.KnobPick("key_rewrite", 0, 0, 1, 2)
 	}
+	// pingGate: a scenario of its own - the server's heartbeat timeout is on, the client does nothing but send
+	// heartbeats. A heartbeat is an operation like the others: one that a plugin refuses (or that fails at a plugin)
+	// does not count as a sign of life.
+	pingGate := np > 0 && w.KnobBool("ping_gate_scenario", 15)
+	hbT := -1
+	if pingGate {
+		hbT = w.KnobPick("ping_gate_timeout", 3, 5)
+		keyRewrite = 0
+	}
 	auth := map[string]any{"token": token}
 	if keyRewrite != 0 {
 		auth["additionalScopes"] = []string{"HeartBeats", "NewWorkConns"}
@@ -114,7 +123,7 @@ func worldPlugins(w *World) {
 	scfg := map[string]any{
 		"bindAddr": "10.0.0.1", "bindPort": 7000,
 		"auth":            auth,
-		"transport":       map[string]any{"tcpMux": tcpMux, "heartbeatTimeout": -1},
+		"transport":       map[string]any{"tcpMux": tcpMux, "heartbeatTimeout": hbT},
 		"allowPorts":      []map[string]any{{"start": 20000, "end": 20009}},
 		"userConnTimeout": 3,
 		"httpPlugins":     pcfg,
@@ -366,6 +375,40 @@ func worldPlugins(w *World) {
 	verify("Login", e, ok, "login")
 	if !ok {
 		w.SetSample(map[string]any{"plugins": np, "stopped": "login"})
+		w.Nontrivial()
+		return
+	}
+	if pingGate {
+		w.Check("C15.refused-heartbeats-are-no-sign-of-life")
+		ep := expect("Ping")
+		loggedIn := w.Net.Now()
+		stop := make(chan struct{})
+		c.Node.Go(func() {
+			for {
+				select {
+				case <-stop:
+					return
+				case <-time.After(500 * time.Millisecond):
+					if c.IsClosed() {
+						return
+					}
+					c.Ping(true, token)
+				}
+			}
+		})
+		closed := c.WaitClosed(time.Duration(hbT)*time.Second + 12*time.Second)
+		close(stop)
+		if ep.pass && closed {
+			viol("gate", "session-with-accepted-heartbeats-closed", "every subscribed plugin accepts heartbeats, one was sent every 500 ms, heartbeatTimeout %ds: the server closed the session %v after the login", hbT, c.ClosedAt-loggedIn)
+		}
+		if !ep.pass && !closed {
+			why := "?"
+			if ep.stopAt != nil {
+				why = fmt.Sprintf("%s answers %s", ep.stopAt.name, poNames[ep.stopAt.outcome["Ping"]])
+			}
+			viol("gate", "refused-heartbeats-keep-session-alive", "every heartbeat of the session is refused (%s), heartbeatTimeout %ds: the session is still open %v after the login", why, hbT, w.Net.Now()-loggedIn)
+		}
+		w.SetSample(map[string]any{"plugins": np, "scenario": "ping-gate", "accepted": ep.pass})
 		w.Nontrivial()
 		return
 	}
